@@ -139,6 +139,39 @@ def build_actions(hist, rng, env, rich=None, admit=None, force=None):
     return acts, chosen
 
 
+def residue_count(tracer, S):
+    """Finished fixture frames the tracer still holds on to.  The tracer's attributes are searched generically
+    (any dict / set / list / tuple attribute, keys and values, two levels deep) so that renaming or restructuring
+    CallTracer.traces does not blind the check."""
+    import types
+    if tracer is None:
+        return 0
+    seen, found = set(), set()
+
+    def walk(o, depth):
+        if id(o) in seen or depth > 3:
+            return
+        seen.add(id(o))
+        if isinstance(o, types.FrameType):
+            if id(o) in S.done_ids and id(o) not in S.frames:
+                found.add(id(o))
+            return
+        if isinstance(o, dict):
+            for k, v in list(o.items()):
+                walk(k, depth + 1)
+                walk(v, depth + 1)
+        elif isinstance(o, (list, tuple, set, frozenset)):
+            for x in list(o):
+                walk(x, depth + 1)
+    try:
+        attrs = list(vars(tracer).values())
+    except TypeError:
+        attrs = [getattr(tracer, n, None) for n in getattr(type(tracer), "__slots__", ())]
+    for a in attrs:
+        walk(a, 0)
+    return len(found)
+
+
 def run_scenario(sc):
     """sc = {tid, hist, rate, k, seed, rich}; returns the trace record."""
     env = _setup_modules()
@@ -173,6 +206,7 @@ def run_scenario(sc):
         return orig_randrange(self, *a, **kw)
     _random_mod.Random.randrange = hooked_randrange
     err = "NONE"
+    tracer = None
     try:
         with mtt.trace_calls(logger, sc["k"], code_filter, sc["rate"] or None):
             tracer = sys.getprofile()
@@ -184,7 +218,7 @@ def run_scenario(sc):
     finally:
         mtt.random = old_random
         _random_mod.Random.randrange = orig_randrange
-    resid = sum(1 for fr in list(tracer.traces) if id(fr) in S.done_ids and id(fr) not in S.frames)
+    resid = residue_count(tracer, S)
     S.emit(ev="End", resid=resid, flushes=logger.flushes, err=err)
     events = S.events
     for e in events:   # homogeneous optional fields
